@@ -163,6 +163,24 @@ fn pae_n5_local() {
     check::<5>([&[h1, h2, h3], &[n], &[c], &[f], &[a]]);
 }
 
+/// quick variants of the two most used shapes with fragment lengths 0..2
+#[kani::proof]
+#[kani::unwind(10)]
+fn pae_n5_local_small() {
+    let store: [u8; BIG] = kani::any();
+    let (h1, h2, h3) = (frag_at(&store, 0, 2), frag_at(&store, 1, 2), frag_at(&store, 2, 2));
+    let (n, c, f, a) = (frag_at(&store, 3, 2), frag_at(&store, 4, 2), frag_at(&store, 5, 2), frag_at(&store, 6, 2));
+    check::<5>([&[h1, h2, h3], &[n], &[c], &[f], &[a]]);
+}
+#[kani::proof]
+#[kani::unwind(10)]
+fn pae_n4_public_small() {
+    let store: [u8; BIG] = kani::any();
+    let (h1, h2, h3) = (frag_at(&store, 0, 2), frag_at(&store, 1, 2), frag_at(&store, 2, 2));
+    let (m, f, a) = (frag_at(&store, 3, 2), frag_at(&store, 4, 2), frag_at(&store, 5, 2));
+    check::<4>([&[h1, h2, h3], &[m], &[f], &[a]]);
+}
+
 /// v3 public shape: key first
 #[kani::proof]
 #[kani::unwind(10)]
